@@ -117,9 +117,12 @@ def write_metafile(box, t, idx):
     return mpath, raw
 
 
-def scatter(rng, box, torrents, decoys="safe", ndirs=None):
+def scatter(rng, box, torrents, decoys="safe", ndirs=None, clash=False):
     """Place every original file somewhere in the search directories under its own file name,
-    plus unrelated files and decoys. Returns (search dirs, description)."""
+    plus unrelated files and decoys. Returns (search dirs, description).
+    clash: some directories on the way to the files are named like files the torrents list
+    (sdir/k3_0/data/src/<file>); the first component stays unique so nothing collides."""
+    wanted = sorted({p.split("/")[-1] for t in torrents for p, _ in t["files"]}) if clash else []
     ndirs = ndirs or rng.choice([1, 2, 3])
     # names that are prefixes of one another (disk1 / disk10 / disk1-extra)
     sdirs = [os.path.join(box, n) for n in ["disk1", "disk10", "disk1-extra"][:ndirs]]
@@ -131,7 +134,10 @@ def scatter(rng, box, torrents, decoys="safe", ndirs=None):
     def spot(sdir):
         counter[0] += 1
         depth = rng.choice([0, 1, 2, 3])
-        return os.path.join(sdir, *[f"k{counter[0]}_{i}" for i in range(depth)])
+        comps = [f"k{counter[0]}_{i}" for i in range(depth)]
+        if wanted and rng.random() < 0.6:
+            comps = [f"k{counter[0]}_0"] + [rng.choice(wanted) for _ in range(rng.choice([1, 1, 2]))]
+        return os.path.join(sdir, *comps)
     for t in torrents:
         for p, blob in torrent_files(t):
             fname = p.split("/")[-1]
